@@ -4,11 +4,11 @@
 //   order laws over cmp3                                               C03
 //   DeweyMatch::new, Dewey::new, Dewey::matches                        C02 C03 C17
 //@ unit dewey
-//@ prop C01 C03 C06 C02 : dewey_test dewey_cmp lemma_first_diff_props lemma_first_diff_unique first_diff
+//@ prop C01 C03 C06 C02 C18 : dewey_test dewey_cmp lemma_first_diff_props lemma_first_diff_unique first_diff
 //@ prop C03 : law_refl law_antisym law_trichotomy law_duality law_trans law_swap_verdict
 //@ prop C01 C02 C03 C06 C17 C18 : DeweyVersion::new tok dpl dec_value pow10
 //@ prop C01 C02 C03 C17 : Dewey::new DeweyMatch::new lemma_get_eq lemma_ops_from
-//@ prop C01 C02 C03 C17 : Dewey::matches
+//@ prop C01 C02 C03 C17 C18 : Dewey::matches
 //@ prop C03 C02 : law_two_bounds
 #![allow(unused_imports)]
 use vstd::prelude::*;
